@@ -486,3 +486,42 @@ Proof.
   - apply Qlt_Rlt in Hh. rewrite RMicromega.Q2R_0 in Hh. exact Hh.
   - apply Qle_Rle. exact Hx.
 Qed.
+
+(* ---------- evaluation of cdf goals in generated files ----------
+   Each kernel argument (x - y)/h is first computed exactly in Q (coq-interval's
+   reifier mishandles literal zeros inside integration bounds), Phi 0 = 1/2 is
+   rewritten, and every remaining integral is enclosed by integral_intro. *)
+Lemma Phi_Q_arg (x y h z : Q) : ~ (h == 0)%Q -> ((x - y) / h == z)%Q ->
+  Phi ((Q2R x - Q2R y) / Q2R h) = Phi (Q2R z).
+Proof.
+  intros Hh Hz. f_equal. rewrite <- Q2R_minus. rewrite <- Q2R_div by exact Hh.
+  apply Qeq_eqR. exact Hz.
+Qed.
+
+Lemma Phi_zero : Phi (Q2R 0) = 1 / 2.
+Proof.
+  unfold Phi. rewrite RMicromega.Q2R_0. rewrite RInt_point. unfold zero. simpl. lra.
+Qed.
+
+Ltac phi_args :=
+  repeat match goal with
+  | |- context [Phi ((Q2R ?x - Q2R ?y) / Q2R ?h)] =>
+      let z := eval vm_compute in (Qred ((x - y) / h)) in
+      rewrite (Phi_Q_arg x y h z) by (try (let HE := fresh "HE" in intro HE; vm_compute in HE; discriminate); vm_compute; reflexivity)
+  end;
+  rewrite ?Phi_zero.
+
+Ltac rint_intros :=
+  repeat match goal with
+  | |- context [RInt ?f ?a ?b] =>
+      let H := fresh "HI" in
+      integral_intro (RInt f a b) with (i_prec 60, i_relwidth 33) as H;
+      revert H; generalize (RInt f a b); intros ? H
+  end.
+
+Ltac kde_cdf_goal :=
+  unfold cdf_code_at, cdf_exact_at; kde_lists;
+  cbv [kde_cdf csum fold_right]; phi_args;
+  cbv [Phi phi Q2R Qnum Qden];
+  rint_intros;
+  interval with (i_prec 90).
